@@ -373,13 +373,14 @@ def judge_pairs(st, obs, phase):
         if rx is None or tx is None:
             continue
         want = {st.spec["rx_key"]: str(pair["uid"][0]), st.spec["tx_key"]: str(pair["uid"][1])}
-        for side, rec in ((0, rx), (1, tx)):
-            if rec["ids"] != want:
-                st.fail(
-                    "link-records-both-ids",
-                    f"{st.fam} {where(st, p)} ({phase}): metadata of the {SIDE[side]} side does not name both partners",
-                    {"class": cls, "pair": p, "have": rec["ids"], "want": want},
-                )
+        wrong = [side for side, rec in ((0, rx), (1, tx)) if rec["ids"] != want]
+        if wrong:
+            sides = "both sides" if len(wrong) == 2 else f"the {SIDE[wrong[0]]} side"
+            st.fail(
+                "link-records-both-ids",
+                f"{st.fam.split('(')[0]} {where(st, p)} ({phase}): metadata of {sides} does not name both partners",
+                {"class": cls, "variant": st.variant, "pair": p, "rx": rx["ids"], "tx": tx["ids"], "want": want},
+            )
         if st.spec["em"]:
             bad = sorted(a for a in rx["get"] if rx["get"][a] != tx["get"].get(a))
             if bad:
@@ -452,15 +453,52 @@ def judge_frame(st, before, after, p_edit, attr, through):
 # operations
 # ---------------------------------------------------------------------------
 def op_link(st, d, order):
+    """d: "rx" / "tx" = link through the setter of that side after both exist; "rx_create" / "tx_create" =
+    hand the partner to create() of that side (the setter runs inside the constructor).  False = refused."""
     from geoh5py.workspace import Workspace
 
     world.reset(order)
     ws = Workspace()
     st.wss.append(ws)
-    rx, tx = build(ws, st.name, d, st.variant)
-    st.pairs.append({"ws": 0, "uid": [rx.uid, None if tx is None else tx.uid], "owner": None, "gen": 0})
     st.transitions += 1
+    if d.endswith("_create"):
+        try:
+            rx, tx = build_create(ws, st.name, d[:2], st.variant)
+        except Exception as err:  # pylint: disable=broad-except
+            # refusing to link inside the constructor is a legitimate outcome: nothing is linked
+            st.outcomes.append(("link", d, "refused", type(err).__name__))
+            return False
+    else:
+        rx, tx = build(ws, st.name, d, st.variant)
+    st.pairs.append({"ws": 0, "uid": [rx.uid, None if tx is None else tx.uid], "owner": None, "gen": 0})
     st.outcomes.append(("link", d))
+    return True
+
+
+def build_create(ws, name, d, variant):
+    """Pair linked by the constructor keyword of side `d`; no parameter is edited afterwards."""
+    spec = spec_of(name)
+    cls = fixtures.concrete_classes()
+    rx_cls, tx_cls = cls[spec["rx"]], cls[spec["tx"]]
+    if name == "PotentialElectrode":
+        rx_kw = {"vertices": fixtures.V6.copy(), "cells": np.array([[1, 2], [0, 1], [4, 5]], dtype="uint32"), "name": name}
+        tx_kw = {"vertices": fixtures.V6.copy(), "parts": np.array([0, 0, 0, 1, 1, 1]), "name": spec["tx"]}
+    elif name.startswith("LargeLoop"):
+        rx_kw = {"vertices": fixtures.V6.copy(), "name": name}
+        tx_kw = {"vertices": fixtures.LOOPS.copy(), "cells": fixtures.LOOP_CELLS.copy(), "name": spec["tx"]}
+    elif name == "TipperReceivers":
+        rx_kw = {"vertices": fixtures.V4.copy(), "name": name}
+        tx_kw = {"vertices": fixtures.V4[:1].copy() if variant == "std" else fixtures.V4.copy() + 1.0, "name": spec["tx"]}
+    else:
+        rx_kw = {"vertices": fixtures.V4.copy(), "name": name}
+        tx_kw = {"vertices": fixtures.V4.copy() + 1.0, "name": spec["tx"]}
+    if d == "rx":
+        tx = tx_cls.create(ws, **tx_kw)
+        rx = rx_cls.create(ws, **rx_kw, **{spec["fwd"]: tx})
+    else:
+        rx = rx_cls.create(ws, **rx_kw)
+        tx = tx_cls.create(ws, **tx_kw, **{spec["back"]: rx})
+    return rx, tx
 
 
 def judge_refusal(st, p, side, group, before, before_own, err):
@@ -471,10 +509,10 @@ def judge_refusal(st, p, side, group, before, before_own, err):
         after = observe_all(st)
         changed = before != after
         detail = {"before": before[pi], "after": after[pi]}
-    else:  # right after a blind re-open: the edited entity alone
-        after_own = observe_side(st, p, side)
-        changed = before_own != after_own
-        detail = {"before": before_own, "after": after_own}
+    else:  # cold edit: there is no earlier observation to compare with
+        st.loaded = True
+        judge_pairs(st, observe_all(st), "live")
+        return
     if changed:
         detail.update({"class": st.name, "through": SIDE[side], "error": f"{type(err).__name__}: {err}"[:200]})
         st.fail("edit-stored", f"{st.fam}: refused edit of {group} is half applied (live values change, the file does not)", detail)
@@ -490,7 +528,7 @@ def op_edit(st, p, side, attr, k):
     values = domains.values_for(ent, attr)
     value = values[k]
     before = observe_all(st) if st.loaded else None
-    before_own = observe_side(st, p, side)  # the edited entity alone (a blind re-open stays blind for the partner)
+    before_own = None  # cold: nothing is read before the edit, so no partner cache is warmed by the harness
     st.transitions += 1
     try:
         setattr(ent, attr, value)
@@ -546,7 +584,7 @@ def op_special(st, p, side, what):
     pi = p % len(st.pairs)
     other = st.ent(p, 1 - side)
     before = observe_all(st) if st.loaded else None
-    before_own = observe_side(st, p, side)
+    before_own = None
     st.transitions += 1
     try:
         if what == "relink":
@@ -808,8 +846,12 @@ def apply(st, op, order="asc"):
     kind = op[0]
     alive = True
     if kind == "link":
-        op_link(st, op[1], order)
-        judge_pairs(st, observe_all(st), "live")
+        if not op_link(st, op[1], order):
+            return False
+        if len(op) > 2 and op[2] == "cold":
+            st.loaded = False  # nothing is read (no getter, no partner cache warmed) before the next op
+        else:
+            judge_pairs(st, observe_all(st), "live")
     elif kind == "edit":
         op_edit(st, op[1], op[2], op[3], op[4])
     elif kind == "special":
